@@ -285,3 +285,369 @@ Example ex_numeric_plain :
   uper_leaf false (Str 72 KNumeric None None) [53] = Some (nbits 8 1 ++ [false; true; false; true]) /\
   uper_leaf true (Str 72 KNumeric None None) [53] = Some (nbits 8 1 ++ [false; true; true; false]).
 Proof. vm_compute. auto. Qed.
+
+(* ================================================================== 4. UPER, standard reading = X.691 30 *)
+
+Lemma default_alpha_wf : forall k, wf_alphab (default_alpha k) = true.
+Proof. destruct k; reflexivity. Qed.
+
+(* What put_char needs of an alphabet [a] to write the number X.691 30.5.4 asks for:
+   either the character value itself fits in the b bits ("as is"), or the code is the index
+   and the largest character is below 256 — put_char (like the C's value2code tables, which
+   exist only up to 255) refuses larger values in the index branch, std = true included. *)
+Definition code_side (a : alphabet) : bool :=
+  as_is (range_bits (card a)) (alpha_stop a) || (alpha_stop a <? 256).
+
+Lemma default_alpha_side : forall k, code_side (default_alpha k) = true.
+Proof. destruct k; reflexivity. Qed.
+
+(* the length n is encodable at all: in the root, or the SIZE is extensible, or the root has a
+   constrained length field (then both sides refuse).  Outside: uper_km, std = true included,
+   writes an unconstrained length where X.691 has no encoding (same leniency as Uper.sized). *)
+Definition size_enc_ok (l : strty) (n : Z) : bool :=
+  match size_con l with
+  | SCon lo hi ext =>
+      in_scon (SCon lo hi ext) n || ext || match hi with Some h => h <? 65536 | None => false end
+  end.
+
+(* [us] is a string the encoder is asked to write for type [l]:
+   - the effective alphabet is canonical and satisfies [code_side];
+   - the length is encodable ([size_enc_ok]);
+   - every character belongs to the effective alphabet when the length is in the root of the
+     SIZE constraint, and to the alphabet of the unconstrained type (X.691 30.4: the extension
+     is encoded as the unconstrained type) when it is not.
+   The encoders do not test the alphabet themselves; outside it put_char writes bits where
+   the standard has no encoding. *)
+Definition chars_ok (l : strty) (us : list Z) : bool :=
+  wf_alphab (eff_alpha l) && code_side (eff_alpha l) && size_enc_ok l (zlen us) &&
+  (if in_scon (size_con l) (zlen us) then forallb (in_alpha (eff_alpha l)) us
+   else forallb (in_alpha (default_alpha (s_k l))) us).
+
+(* one character: every branch of put_char against spec_code *)
+Lemma put_char_std_spec : forall cub a x u,
+  wf_alpha a -> code_side a = true -> in_alpha a u = true ->
+  put_char cub (range_bits (card a)) (Pcv x (alpha_start a) (alpha_stop a) (Some a)) u =
+  match spec_code a u with Some c => Some (nbits (spec_bits a) c) | None => None end.
+Proof.
+  intros cub a x u [Hne Hwf] Hside Hin.
+  pose proof (in_alpha_lb _ _ _ Hwf Hin) as Hlb.
+  pose proof (in_alpha_ub _ _ _ Hwf Hin) as Hub.
+  destruct (proj1 (idx_of_in_alpha a u) Hin) as [i Hi].
+  unfold put_char, spec_code, code_side in *. rewrite spec_bits_range_bits.
+  set (w := range_bits (card a)) in *.
+  destruct (as_is w (alpha_stop a)) eqn:Eas.
+  - (* the value as it is *)
+    assert (Hlt : (alpha_stop a <? 2 ^ Z.of_nat w) = true).
+    { unfold as_is in Eas. apply andb_true_iff in Eas. tauto. }
+    rewrite Hlt, Hin.
+    destruct (w =? cub)%nat; [reflexivity |].
+    replace ((0 <=? u) && (u <=? alpha_stop a)) with true by lia. reflexivity.
+  - (* the index *)
+    cbn [orb] in Hside.
+    replace (u <? 256) with true by lia. rewrite Hi.
+    destruct (alpha_stop a <? 2 ^ Z.of_nat w) eqn:Elt.
+    + (* only with w = 0: no bits either way *)
+      assert (Hw : w = 0%nat).
+      { unfold as_is in Eas. rewrite Elt, andb_true_r in Eas. lia. }
+      rewrite Hin, Hw. reflexivity.
+    + reflexivity.
+Qed.
+
+Lemma option_all_map_ext : forall {A B} (f g : A -> option B) l,
+  Forall (fun x => f x = g x) l -> option_all (map f l) = option_all (map g l).
+Proof.
+  intros A B f g l H. induction H as [| x tl Hx Htl IH]; [reflexivity |].
+  cbn [map option_all]. rewrite Hx, IH. reflexivity.
+Qed.
+
+Lemma put_chars_map : forall std l ext us,
+  put_chars std l ext (map (be_bytes (bpc (s_k l))) us) =
+  option_all (map (fun u => put_char (cub_of (s_k l)) (if ext then w_ext std l else w_root std l)
+                                     (if ext then pc_ext std l else pc_root std l)
+                                     (be_val (be_bytes (bpc (s_k l)) u))) us).
+Proof. intros. unfold put_chars. rewrite map_map. reflexivity. Qed.
+
+Definition char_range (k : strk) (u : Z) : Prop := 0 <= u < 256 ^ Z.of_nat (bpc k).
+
+Lemma put_chars_std_root : forall l us,
+  Forall (char_range (s_k l)) us ->
+  wf_alphab (eff_alpha l) = true -> code_side (eff_alpha l) = true ->
+  forallb (in_alpha (eff_alpha l)) us = true ->
+  put_chars true l false (map (be_bytes (bpc (s_k l))) us) = spec_chars (eff_alpha l) us.
+Proof.
+  intros l us Hr Hwf Hside Hin. rewrite put_chars_map. unfold spec_chars.
+  apply option_all_map_ext. rewrite forallb_forall in Hin. rewrite Forall_forall in *.
+  intros u Hu. rewrite be_val_be_bytes_small by exact (Hr u Hu).
+  apply wf_alphab_spec in Hwf.
+  exact (put_char_std_spec _ _ _ _ Hwf Hside (Hin u Hu)).
+Qed.
+
+Lemma put_chars_std_ext : forall l us,
+  Forall (char_range (s_k l)) us ->
+  forallb (in_alpha (default_alpha (s_k l))) us = true ->
+  put_chars true l true (map (be_bytes (bpc (s_k l))) us) = spec_chars (default_alpha (s_k l)) us.
+Proof.
+  intros l us Hr Hin. rewrite put_chars_map. unfold spec_chars.
+  apply option_all_map_ext. rewrite forallb_forall in Hin. rewrite Forall_forall in *.
+  intros u Hu. rewrite be_val_be_bytes_small by exact (Hr u Hu).
+  pose proof (default_alpha_wf (s_k l)) as Hwf. apply wf_alphab_spec in Hwf.
+  exact (put_char_std_spec _ _ _ _ Hwf (default_alpha_side (s_k l)) (Hin u Hu)).
+Qed.
+
+Theorem uper_std_is_spec : forall l us,
+  known_mult (s_k l) = true ->
+  Forall (fun u => 0 <= u < 256 ^ Z.of_nat (bpc (s_k l))) us ->
+  chars_ok l us = true ->
+  uper_leaf true l (octets_of (s_k l) us) = spec_uper_km l us.
+Proof.
+  intros l us Hk Hr Hok. unfold uper_leaf. rewrite Hk, chunks_octets_of_gen by exact Hk.
+  unfold chars_ok in Hok. apply andb_true_iff in Hok. destruct Hok as [Hok Hin].
+  apply andb_true_iff in Hok. destruct Hok as [Hok Hsz].
+  apply andb_true_iff in Hok. destruct Hok as [Hwf Hside].
+  unfold uper_km, spec_uper_km, size_enc_ok in *. rewrite zlen_map.
+  destruct (size_con l) as [lo hi ext]. cbv zeta.
+  destruct (in_scon (SCon lo hi ext) (zlen us)) eqn:Ein.
+  - (* the size is in the root *)
+    rewrite (put_chars_std_root l us Hr Hwf Hside Hin).
+    destruct hi as [h |].
+    + destruct (h <? 65536) eqn:Eh.
+      * destruct (spec_chars (eff_alpha l) us); reflexivity.
+      * cbn [andb negb]. rewrite andb_false_r.
+        destruct (spec_chars (eff_alpha l) us); reflexivity.
+    + cbn [andb negb]. rewrite andb_false_r.
+      destruct (spec_chars (eff_alpha l) us); reflexivity.
+  - (* outside the root *)
+    cbn [orb] in Hsz.
+    destruct ext.
+    + rewrite (put_chars_std_ext l us Hr Hin).
+      destruct (match hi with Some h => h <? 65536 | None => false end);
+        cbn [andb negb]; destruct (spec_chars (default_alpha (s_k l)) us); reflexivity.
+    + cbn [orb] in Hsz. rewrite Hsz. reflexivity.
+Qed.
+
+(* the same with the bound on the characters taken from the alphabets *)
+Corollary uper_std_is_spec_alpha : forall l us,
+  known_mult (s_k l) = true ->
+  alpha_stop (eff_alpha l) < 256 ^ Z.of_nat (bpc (s_k l)) ->
+  in_scon (size_con l) (zlen us) = true ->
+  chars_ok l us = true ->
+  uper_leaf true l (octets_of (s_k l) us) = spec_uper_km l us.
+Proof.
+  intros l us Hk Hstop Hroot Hok. apply uper_std_is_spec; [exact Hk | | exact Hok].
+  unfold chars_ok in Hok. rewrite Hroot in Hok.
+  apply andb_true_iff in Hok. destruct Hok as [Hok Hin].
+  apply andb_true_iff in Hok. destruct Hok as [Hok _].
+  apply andb_true_iff in Hok. destruct Hok as [Hwf _].
+  apply wf_alphab_spec in Hwf. destruct Hwf as [_ Hwf].
+  rewrite forallb_forall in Hin. apply Forall_forall. intros u Hu.
+  pose proof (in_alpha_lb _ _ _ Hwf (Hin u Hu)). pose proof (in_alpha_ub _ _ _ Hwf (Hin u Hu)). lia.
+Qed.
+
+(* ================================================================== 5. UPER, the C = the standard reading *)
+
+(* the per-character constraint asn1c emits (pc_c) makes put_char write what the standard
+   constraint (pc_std: always a map) writes:
+   - BMP/UniversalString special case of asn1c_C.c (no FROM): 32 bits, the value;
+   - the value as it is (no map consulted), or
+   - the C has the character map, or
+   - the alphabet is one interval lo..hi with hi < 256: "value - lo" is the index. *)
+Definition pc_agree (l : strty) : bool :=
+  match s_k l, s_fr l with
+  | KUniversal, None => true
+  | _, _ =>
+      let a := eff_alpha l in
+      as_is (range_bits (card a)) (alpha_stop a)
+      || (has_ct l && use_table (tablek (s_k l)) a)
+      || (match a with [_] => true | _ => false end && (alpha_stop a <? 256))
+  end.
+
+(* n characters: the size is in the root of the SIZE constraint or the constraint is not
+   extensible (first deviation excluded), and [pc_agree] (second deviation excluded) *)
+Definition c_std_safe (l : strty) (n : Z) : bool :=
+  (in_scon (size_con l) n || negb (scon_ext (size_con l))) && pc_agree l.
+
+Lemma pc_c_cases : forall l,
+  (s_k l = KUniversal /\ s_fr l = None /\ pc_c l = Pcv 32 0 2147483647 None) \/
+  (pc_agree l =
+     (as_is (range_bits (card (eff_alpha l))) (alpha_stop (eff_alpha l))
+      || (has_ct l && use_table (tablek (s_k l)) (eff_alpha l))
+      || (match eff_alpha l with [_] => true | _ => false end && (alpha_stop (eff_alpha l) <? 256))) /\
+   pc_c l = Pcv (range_bits (card (eff_alpha l))) (alpha_start (eff_alpha l)) (alpha_stop (eff_alpha l))
+                (if has_ct l && use_table (tablek (s_k l)) (eff_alpha l) then Some (eff_alpha l) else None)).
+Proof.
+  intros [tg k sz fr]. unfold pc_agree, pc_c. cbn [s_k s_fr].
+  destruct k; try (right; split; reflexivity).
+  destruct fr; [right; split; reflexivity | left; auto].
+Qed.
+
+Lemma put_char_c_std : forall l v,
+  wf_alphab (eff_alpha l) = true -> pc_agree l = true ->
+  put_char (cub_of (s_k l)) (w_root false l) (pc_root false l) v =
+  put_char (cub_of (s_k l)) (w_root true l) (pc_root true l) v.
+Proof.
+  intros l v Hwf Hag. unfold w_root, pc_root.
+  destruct (pc_c_cases l) as [(Hk & Hfr & Hc) | (Hag' & Hc)]; rewrite Hc.
+  - (* UniversalString without FROM: 32 bits, the value, on both sides *)
+    unfold pc_std, eff_alpha. rewrite Hfr, Hk. reflexivity.
+  - rewrite Hag' in Hag. clear Hag' Hc. unfold pc_std.
+    set (a := eff_alpha l) in *. set (w := range_bits (card a)) in *.
+    unfold put_char.
+    destruct (as_is w (alpha_stop a)) eqn:Eas; [reflexivity |].
+    destruct (has_ct l && use_table (tablek (s_k l)) a); [reflexivity |].
+    cbn [orb] in Hag.
+    (* one interval *)
+    destruct a as [| r [| r2 tl]] eqn:Ea; try discriminate Hag. cbn [andb] in Hag.
+    apply wf_alphab_spec in Hwf. destruct Hwf as [_ (H1 & H2 & _)].
+    unfold alpha_start, alpha_stop in *. cbn [last] in *. cbn [idx_of].
+    assert (Hcard : card [r] = snd r - fst r + 1) by (cbn [card]; lia).
+    pose proof (range_bits_spec (card [r]) ltac:(lia)) as Hrb. fold w in Hrb.
+    assert (Hcub : (0 < cub_of (s_k l))%nat).
+    { unfold cub_of. pose proof (bpc_pos (s_k l)). lia. }
+    destruct ((fst r =? 0) && (w =? cub_of (s_k l))%nat) eqn:E0.
+    + (* impossible: lo = 0 and cub bits hold the whole interval, so "as is" would apply *)
+      exfalso. unfold as_is in Eas.
+      apply andb_true_iff in E0. destruct E0 as [E0 E1].
+      apply Nat.eqb_eq in E1.
+      assert (Hw : (0 <? Z.of_nat w) = true) by lia.
+      rewrite Hw in Eas. cbn [andb] in Eas. lia.
+    + destruct ((fst r <=? v) && (v <=? snd r)) eqn:Ein.
+      * replace ((0 <=? v - fst r) && (v - fst r <=? snd r - fst r)) with true by lia.
+        replace (v <? 256) with true by lia. reflexivity.
+      * replace ((0 <=? v - fst r) && (v - fst r <=? snd r - fst r)) with false by lia.
+        destruct (v <? 256); reflexivity.
+Qed.
+
+Lemma w_root_c_std : forall l, w_root false l = w_root true l.
+Proof.
+  intros l. unfold w_root, pc_root.
+  destruct (pc_c_cases l) as [(Hk & Hfr & Hc) | (_ & Hc)]; rewrite Hc.
+  - unfold pc_std, eff_alpha. rewrite Hfr, Hk. reflexivity.
+  - reflexivity.
+Qed.
+
+Lemma put_chars_c_std : forall l cs,
+  wf_alphab (eff_alpha l) = true -> pc_agree l = true ->
+  put_chars false l false cs = put_chars true l false cs.
+Proof.
+  intros l cs Hwf Hag. unfold put_chars. f_equal. apply map_ext.
+  intros c. apply put_char_c_std; assumption.
+Qed.
+
+Theorem uper_c_is_std : forall l bs cs,
+  known_mult (s_k l) = true -> chunks (s_k l) bs = Some cs ->
+  wf_alphab (eff_alpha l) = true ->
+  c_std_safe l (zlen cs) = true ->
+  uper_leaf false l bs = uper_leaf true l bs.
+Proof.
+  intros l bs cs Hk Hch Hwf Hsafe. unfold uper_leaf. rewrite Hk, Hch.
+  unfold c_std_safe in Hsafe. apply andb_true_iff in Hsafe. destruct Hsafe as [Hsz Hag].
+  unfold uper_km. rewrite (put_chars_c_std l cs Hwf Hag).
+  destruct (size_con l) as [lo hi ext]. cbn [scon_ext] in Hsz. cbv zeta.
+  destruct (in_scon (SCon lo hi ext) (zlen cs)) eqn:Ein.
+  - cbn [andb negb]. rewrite ?andb_false_r. reflexivity.
+  - cbn [orb] in Hsz. destruct ext; [discriminate Hsz |]. reflexivity.
+Qed.
+
+(* UTF8String and the other string types: an OCTET STRING without PER-visible constraints *)
+Theorem uper_leaf_other_is_octets : forall std l bs, known_mult (s_k l) = false ->
+  uper_leaf std l bs = uper std (TOct (s_tg l) no_size) (VOct bs).
+Proof. intros std l bs Hk. unfold uper_leaf. rewrite Hk. reflexivity. Qed.
+
+(* ================================================================== 7. totality *)
+
+Lemma spec_chars_total : forall a us, forallb (in_alpha a) us = true ->
+  exists items, spec_chars a us = Some items.
+Proof.
+  intros a us H. unfold spec_chars. induction us as [| u tl IH]; [cbn; eauto |].
+  cbn [forallb] in H. apply andb_true_iff in H. destruct H as [Hu Htl].
+  destruct (IH Htl) as [items Hit]. cbn [map option_all]. rewrite Hit.
+  destruct (proj1 (idx_of_in_alpha a u) Hu) as [i Hi].
+  unfold spec_code. rewrite Hu, Hi.
+  destruct (alpha_stop a <? 2 ^ Z.of_nat (spec_bits a)); eauto.
+Qed.
+
+(* every string over the alphabet with a size in the root has an encoding *)
+Theorem uper_leaf_total : forall l us,
+  known_mult (s_k l) = true ->
+  Forall (fun u => 0 <= u < 256 ^ Z.of_nat (bpc (s_k l))) us ->
+  chars_ok l us = true ->
+  in_scon (size_con l) (zlen us) = true ->
+  exists bits, uper_leaf true l (octets_of (s_k l) us) = Some bits.
+Proof.
+  intros l us Hk Hr Hok Hroot. rewrite (uper_std_is_spec l us Hk Hr Hok).
+  unfold chars_ok in Hok. rewrite Hroot in Hok.
+  apply andb_true_iff in Hok. destruct Hok as [_ Hin].
+  unfold spec_uper_km. destruct (size_con l) as [lo hi ext]. cbv zeta. rewrite Hroot.
+  destruct (spec_chars_total _ _ Hin) as [items ->]. eauto.
+Qed.
+
+(* ... and the C writes it where it follows the standard *)
+Theorem uper_leaf_total_c : forall l us,
+  known_mult (s_k l) = true ->
+  Forall (fun u => 0 <= u < 256 ^ Z.of_nat (bpc (s_k l))) us ->
+  chars_ok l us = true ->
+  in_scon (size_con l) (zlen us) = true ->
+  c_std_safe l (zlen us) = true ->
+  exists bits, uper_leaf false l (octets_of (s_k l) us) = Some bits /\
+               spec_uper_km l us = Some bits.
+Proof.
+  intros l us Hk Hr Hok Hroot Hsafe.
+  destruct (uper_leaf_total l us Hk Hr Hok Hroot) as [bits Hb]. exists bits.
+  assert (Hwf : wf_alphab (eff_alpha l) = true).
+  { unfold chars_ok in Hok. apply andb_true_iff in Hok. destruct Hok as [Hok _].
+    apply andb_true_iff in Hok. destruct Hok as [Hok _].
+    apply andb_true_iff in Hok. tauto. }
+  split.
+  - rewrite (uper_c_is_std l _ (map (be_bytes (bpc (s_k l))) us) Hk
+               (chunks_octets_of_gen _ us Hk) Hwf); [exact Hb |].
+    rewrite zlen_map. exact Hsafe.
+  - rewrite <- (uper_std_is_spec l us Hk Hr Hok). exact Hb.
+Qed.
+
+(* ================================================================== who satisfies chars_ok *)
+
+(* a canonical alphabet that is the default one of the kind, or whose characters are below 256
+   (every FROM within 32..126, any kind), a size in the root, characters of the alphabet *)
+Lemma chars_ok_root : forall l us,
+  wf_alphab (eff_alpha l) = true ->
+  s_fr l = None \/ alpha_stop (eff_alpha l) < 256 ->
+  in_scon (size_con l) (zlen us) = true ->
+  forallb (in_alpha (eff_alpha l)) us = true ->
+  chars_ok l us = true.
+Proof.
+  intros l us Hwf Hs Hroot Hin. unfold chars_ok. rewrite Hwf, Hroot, Hin.
+  assert (Hside : code_side (eff_alpha l) = true).
+  { destruct Hs as [Hn | Hlt].
+    - unfold eff_alpha. rewrite Hn. apply default_alpha_side.
+    - unfold code_side. replace (alpha_stop (eff_alpha l) <? 256) with true by lia. apply orb_true_r. }
+  rewrite Hside. unfold size_enc_ok. destruct (size_con l) as [lo hi ext]. rewrite Hroot. reflexivity.
+Qed.
+
+(* outside the root of an extensible SIZE: additionally the characters are characters of the
+   unconstrained type *)
+Lemma chars_ok_ext : forall l us,
+  wf_alphab (eff_alpha l) = true ->
+  s_fr l = None \/ alpha_stop (eff_alpha l) < 256 ->
+  in_scon (size_con l) (zlen us) = false -> scon_ext (size_con l) = true ->
+  forallb (in_alpha (default_alpha (s_k l))) us = true ->
+  chars_ok l us = true.
+Proof.
+  intros l us Hwf Hs Hroot Hext Hin. unfold chars_ok. rewrite Hwf, Hroot, Hin.
+  assert (Hside : code_side (eff_alpha l) = true).
+  { destruct Hs as [Hn | Hlt].
+    - unfold eff_alpha. rewrite Hn. apply default_alpha_side.
+    - unfold code_side. replace (alpha_stop (eff_alpha l) <? 256) with true by lia. apply orb_true_r. }
+  rewrite Hside. unfold size_enc_ok. destruct (size_con l) as [lo hi ext]. cbn [scon_ext] in Hext.
+  rewrite Hext, orb_true_r. reflexivity.
+Qed.
+
+Example ex_chars_ok :
+  chars_ok (Str 88 KIA5 (Some (SCon 1 (Some 2) true)) None) [65; 66; 67] = true /\
+  chars_ok (Str 72 KNumeric None None) [53] = true /\
+  chars_ok (Str 120 KBMP None (Some [(65, 90); (97, 122)])) [65; 122] = true /\
+  c_std_safe (Str 88 KIA5 (Some (SCon 1 (Some 2) true)) None) 3 = false /\
+  c_std_safe (Str 88 KIA5 (Some (SCon 1 (Some 2) true)) None) 2 = true /\
+  c_std_safe (Str 72 KNumeric None None) 1 = false /\
+  c_std_safe (Str 72 KNumeric (Some (SCon 0 (Some 8) false)) None) 1 = true /\
+  c_std_safe (Str 112 KUniversal None None) 1 = true.
+Proof. vm_compute. auto 10. Qed.
